@@ -126,6 +126,101 @@ func TestVerifCodec(t *testing.T) {
 				}
 				fmt.Fprintf(w, "E ok %d %d %s\n", lc, l, vEnc(data))
 			}()
+		case "X":
+			// X <key> <val> <fill byte>: buffer discipline of the codec.
+			//  (1) MarshalTo into a LARGER buffer pre-filled with <fill> (a reused buffer): must write exactly MarshalLen bytes, equal to
+			//      MarshalBinary's output, and touch nothing behind them;
+			//  (2) Unmarshal, then overwrite the input buffer: the decoded pair must not change (no aliasing of the caller's buffer);
+			//  (3) Unmarshal of the encoding followed by a second message: consumed = first length, second decodes from there.
+			func() {
+				k, v := vDec(f[1]), vDec(f[2])
+				fill, _ := strconv.Atoi(f[3])
+				defer func() {
+					if r := recover(); r != nil {
+						fmt.Fprintf(w, "X panic\n")
+					}
+				}()
+				o := &KV{Key: string(k), Val: string(v)}
+				l, lerr := o.MarshalLen()
+				ref, merr := o.MarshalBinary()
+				if lerr != nil || merr != nil {
+					fmt.Fprintf(w, "X skip\n")
+					return
+				}
+				buf := make([]byte, l+9)
+				for i := range buf {
+					buf[i] = byte(fill)
+				}
+				n := o.MarshalTo(buf)
+				sameAsBinary := n == len(ref) && string(buf[:n]) == string(ref)
+				tailUntouched := true
+				for _, b := range buf[n:] {
+					if b != byte(fill) {
+						tailUntouched = false
+					}
+				}
+				// (2) aliasing
+				in2 := append([]byte{}, ref...)
+				d := &KV{}
+				_, uerr := d.Unmarshal(in2)
+				for i := range in2 {
+					in2[i] = 0xAA
+				}
+				stable := uerr == nil && d.Key == string(k) && d.Val == string(v)
+				in3 := append([]byte{}, ref...)
+				d3 := &KV{}
+				berr := d3.UnmarshalBinary(in3)
+				for i := range in3 {
+					in3[i] = 0x55
+				}
+				stableB := berr == nil && d3.Key == string(k) && d3.Val == string(v)
+				// (3) two messages back to back
+				o2 := &KV{Key: string(v), Val: string(k)}
+				ref2, _ := o2.MarshalBinary()
+				both := append(append([]byte{}, ref...), ref2...)
+				d1, d2 := &KV{}, &KV{}
+				n1, e1 := d1.Unmarshal(both)
+				okSeq := e1 == nil && n1 == len(ref) && d1.Key == string(k) && d1.Val == string(v)
+				if okSeq {
+					n2, e2 := d2.Unmarshal(both[n1:])
+					okSeq = e2 == nil && n2 == len(ref2) && d2.Key == string(v) && d2.Val == string(k)
+				}
+				fmt.Fprintf(w, "X ok %d %d %t %t %t %t %t\n", l, n, sameAsBinary, tailUntouched, stable, stableB, okSeq)
+			}()
+		case "L":
+			// L <size max> <key len> <val len>: large fields with a raised ColferSizeMax (length prefixes of 5 bytes and more): declared
+			// length = bytes produced, round trip, nothing crashes.  Judged on the implementation only (the model is not evaluated at this size).
+			func() {
+				sm, _ := strconv.Atoi(f[1])
+				kl, _ := strconv.Atoi(f[2])
+				vl, _ := strconv.Atoi(f[3])
+				old := ColferSizeMax
+				ColferSizeMax = sm
+				defer func() { ColferSizeMax = old }()
+				defer func() {
+					if r := recover(); r != nil {
+						fmt.Fprintf(w, "L panic\n")
+					}
+				}()
+				kb, vb := make([]byte, kl), make([]byte, vl)
+				for i := range kb {
+					kb[i] = 'k'
+				}
+				for i := range vb {
+					vb[i] = 'v'
+				}
+				o := &KV{Key: string(kb), Val: string(vb)}
+				l, lerr := o.MarshalLen()
+				data, merr := o.MarshalBinary()
+				if lerr != nil || merr != nil {
+					fmt.Fprintf(w, "L err %d\n", l)
+					return
+				}
+				d := &KV{}
+				n, uerr := d.Unmarshal(data)
+				rt := uerr == nil && n == len(data) && d.Key == o.Key && d.Val == o.Val
+				fmt.Fprintf(w, "L ok %d %d %t\n", l, len(data), rt)
+			}()
 		case "D":
 			func() {
 				data := vDec(f[1])
